@@ -70,7 +70,7 @@ func selftestDeterminism(args []string) int {
 			}
 			for gi := 0; gi < len(ph.Groups) && len(samples) < *perProp; gi += step {
 				g := ph.Groups[gi]
-				if len(g.Jobs) == 0 {
+				if len(g.Jobs) == 0 || g.Expect == "reject" || g.Expect == "either" {
 					continue
 				}
 				j := *g.Jobs[0]
